@@ -43,6 +43,8 @@ BATTERY = [
      {"a": [{"x": None}], "b": [{"y": None}], "c": {"a": {"b": 1}}, "d": {"a": {"c": 1}}, "e": 1.5},
      {"a": "ab", "b": "\U0001F600", "c": 2**60, "d": -1e300, "e": {"": {}}}],
     {"a": {"a": {"x": 1}, "b": {"y": 1}}, "b": [[], {}, [[]], [{}]], "c": {"c": {"c": {"c": None}}}, "d": "d", "e": False},
+    # what json.loads makes of "\ud800": strings with lone surrogates, as subjects, patterns, names
+    [{"s": "a", "p": "\ud800", "a": "\udc00"}, {"s": "\udfff", "p": "a", "a": "x\ud83d"}, {"\ud800": 1, "a": "a"}],
 ]
 
 
@@ -54,7 +56,7 @@ def _alarm(signum, frame):
     raise Budget()
 
 
-def run_case(q):
+def run_case(q, extra_doc=None):
     """Return None or a failure dict."""
     status, got = lib.compile_(q)
     if status == "err":
@@ -78,7 +80,7 @@ def run_case(q):
         info = lib.exc_info(e)
         return {"bucket": f"str-of-query:{info['type']}:{info['frame']}", "stage": "str",
                 "what": f"str(compile({q[:120]!r})) raised {info['type']}: {info['str']}", "expected": "a string", "observed": info}
-    for v in BATTERY:
+    for v in ([extra_doc] if extra_doc is not None else BATTERY):
         st, r = lib.find(cq, v)
         if st == "err":
             if r["type"] == "Budget":
@@ -101,7 +103,7 @@ def examine(case):
         for attempt in (1, 2):
             signal.setitimer(signal.ITIMER_VIRTUAL, CPU_BUDGET)
             try:
-                return run_case(q)
+                return run_case(q, case.get("doc"))
             except Budget:
                 if attempt == 2:
                     return {"bucket": "suspected-hang", "what": f"compile/find of {q[:120]!r} exceeded {CPU_BUDGET}s of CPU twice",
@@ -178,6 +180,29 @@ def number_input(r):
     return f"$[?match(@.a, {n}) || @[{n}]]"
 
 
+ARGS = ["@.a", "(@.b)", "!@.c", "1", "'x'", "@.*", "count(@.*)", "((@.a))", "$", "length(@)", "(1)", "true", "@", "$..a", "(@.a == 1)",
+        "match(@.a, 'x')", "match(@.s, @.p)", "search(@.a, @.p)", "@.s", "@.p", "value(@.a)", "(count(@.*))", "!(@.a)", "null", "-0", "'[z-a]'", "@[?@.a]", "(@.a) && @.b", "nope(@)"]
+
+
+def call_shape(r):
+    """Function calls of every arity with arguments of every syntactic class (well-typed or not)."""
+    f = r.choice(["length", "count", "value", "match", "search", "nope", "f_1", "true", "null"])
+    args = ", ".join(r.choice(ARGS) for _ in range(r.randrange(0, 5)))
+    call = f"{f}({args})"
+    k = r.randrange(6)
+    if k == 0:
+        return f"$[?{call}]"
+    if k == 1:
+        return f"$[?{call} == {r.choice(ARGS)}]"
+    if k == 2:
+        return f"$[?!{call} && ({call})]"
+    if k == 3:
+        return f"$[?{r.choice(ARGS)} {r.choice(['<', '==', '!=', '>='])} {call}]"
+    if k == 4:
+        return f"$[?count(@[?{call}]) > 0]"
+    return f"$..[?{call} || {r.choice(ARGS)}]"
+
+
 def unicode_text(r):
     pools = ["$@.[]()?*!=<>&|,:'\"\\ \t\n\r", "abcxyz_019eE+-", "\u00e9\u4e2d\U0001F600\u2028\x00\x1f\x7f\ufeff\uffff\U0010ffff"]
     n = r.choice([1, 2, 5, 10, 30, 100, 400, 1024])
@@ -218,6 +243,7 @@ def run_shard(spec, shard):
             m, kinds = M.mutant(text, r)
             record(shard, m, "mutant")
         record(shard, M.token_sequence(r, 12), "token-sequence")
+        record(shard, call_shape(r), "call-shape")
         k = r.randrange(4)
         if k == 0:
             record(shard, nested(r), "nested")
@@ -229,6 +255,16 @@ def run_shard(spec, shard):
             record(shard, unicode_text(r), "unicode-text")
 
     drive(rng(), spec["n"], spec["seed"], body)
+    if spec["shard"] == 0:
+        # evaluation that is slow but finite (a regular expression that backtracks for a second or two) must still
+        # complete or raise a JSONPathError - never some other exception
+        for q, doc in (("$[?match(@, '(a|aa)+c')]", ["a" * 34]), ("$[?search(@, '(a|aa)+c')]", ["a" * 33]),
+                       ("$[?match(@, '(a|aa|aaa)+b')]", ["a" * 27])):
+            case = {"q": q, "doc": doc}
+            shard.case(key=(q, doc), nontrivial=True, classes={"gen:slow-regex"}, sample={"q": q, "origin": "slow-regex"})
+            f = examine(case)
+            if f:
+                shard.fail(f["bucket"], case, f, size=len(q))
 
 
 def run_atheris(spec, shard):
